@@ -1,4 +1,5 @@
 import Octo.Model.Handshake
+import Octo.Proofs.Handshake
 import Octo.Props.C14
 /-!
 # C13 — local SOCKS5 and HTTP handshakes yield exactly the requested target
@@ -194,5 +195,37 @@ theorem c13_socks5_only_connect (greeting request : Bytes) (bound a : Addr) (n :
         exact ⟨a', rest, hq⟩
     · cases h
   · cases h
+
+/-! ### authority extraction over the target grammar (proved in `Octo/Proofs/Handshake.lean`) -/
+
+/-- **absolute-form targets**: for every well-formed `scheme "://" host [":" port] path ["?" query]`
+— reg-name / IPv4 / bracketed IPv6 host, path and query free to contain ':' '/' and the query also
+'?' and "://" — and every method but CONNECT, the tunnel target is exactly the authority's host
+and port (80 when absent) -/
+theorem c13_http_authority (t : Target) (h : t.WF) (method : Bytes) (hm : method ≠ str "CONNECT") :
+    recognizeHttp method t.render =
+      some (.http t.authHost (match t.port with | some p => (parseU16 p).getD 0 | none => 80)) :=
+  recognizeHttp_absolute t h method hm
+
+/-- **CONNECT**: `host:port` gives exactly that host and port -/
+theorem c13_connect_authority (host p : Bytes) (v : Nat) (hhost : ∀ b ∈ host, b ≠ ch '/' ∧ b ≠ ch '?')
+    (hp : parseU16 p = some v) (hd : ∀ b ∈ p, isDigit b = true) :
+    recognizeHttp (str "CONNECT") (host ++ ch ':' :: p) = some (.https host v) :=
+  recognizeHttp_connect host p v hhost hp hd
+
+/-- **refusals**: an origin-form target (even one containing "://" further on), a present but
+non-numeric or out-of-range port, CONNECT without a port: no tunnel -/
+theorem c13_origin_form_refused (method path : Bytes) (hm : method ≠ str "CONNECT")
+    (h : (beforeQuery path).head? = some (ch '/')) : recognizeHttp method path = none :=
+  recognizeHttp_origin_form_refused method path hm h
+
+theorem c13_bad_port_refused (t : Target) (h : t.Shape) (p : Bytes) (hp : t.port = some p)
+    (hbad : parseU16 p = none) (method : Bytes) (hm : method ≠ str "CONNECT") :
+    recognizeHttp method t.render = none :=
+  recognizeHttp_bad_port_refused t h p hp hbad method hm
+
+theorem c13_connect_without_port_refused (a : Bytes) (ha : ∀ b ∈ a, b ≠ ch ':' ∧ b ≠ ch '/' ∧ b ≠ ch '?') :
+    recognizeHttp (str "CONNECT") a = none :=
+  recognizeHttp_connect_no_port_refused a ha
 
 end Octo.Hs
